@@ -4,6 +4,8 @@ STUB_NOTES = ['std::string::_M_replace: C model by contract (engine/vmodels.h) -
 STUBS = ['_ZNSt7__cxx1112basic_stringIcSt11char_traitsIcESaIcEE10_M_replaceEmmPKcm', '_ZNSt7__cxx1112basic_stringIcSt11char_traitsIcESaIcEE9_M_mutateEmmPKcm']
 def jobs(tier):
     J = []
+    if tier != 'thorough':
+        return J   # 2-15 min of symbolic execution per job: thorough tier only (DESIGN 6.3)
     for l in (1, 2, 3):
         J.append(dict(id='split1_L%d' % l, harness='h_split1', props=['C03'], unwind=l + 6, defs=dict(L=l), timeout=900, mem_gb=8, desc='whole vs two-chunk delivery at every split point: same error code and events', bound='all byte strings of length %d, every split point' % l))
     return J
